@@ -170,13 +170,15 @@ func c10StartServer(dir string, cfg c10Cfg, imp *c10Imp) (tcpAddr, udpAddr strin
 
 // ---------- scripted raw client ----------
 type c10Collector struct {
-	mu  sync.Mutex
-	obs [][]byte
+	mu   sync.Mutex
+	obs  [][]byte
+	conn []int
 }
 
-func (c *c10Collector) add(b []byte) {
+func (c *c10Collector) add(ci int, b []byte) {
 	c.mu.Lock()
 	c.obs = append(c.obs, append([]byte(nil), b...))
+	c.conn = append(c.conn, ci)
 	c.mu.Unlock()
 }
 func (c *c10Collector) count() int {
@@ -185,7 +187,7 @@ func (c *c10Collector) count() int {
 	return len(c.obs)
 }
 
-func c10ReadTCP(conn net.Conn, col *c10Collector, done chan struct{}) {
+func c10ReadTCP(ci int, conn net.Conn, col *c10Collector, done chan struct{}) {
 	defer close(done)
 	hdr := make([]byte, 4)
 	for {
@@ -194,20 +196,20 @@ func c10ReadTCP(conn net.Conn, col *c10Collector, done chan struct{}) {
 		}
 		n := int(binary.BigEndian.Uint32(hdr))
 		if n < 4 || n > 64<<20 {
-			col.add(hdr) // garbage: recorded as it is, the monitor reports it
+			col.add(ci, hdr) // garbage: recorded as it is, the monitor reports it
 			return
 		}
 		b := make([]byte, n)
 		copy(b, hdr)
 		if _, err := io.ReadFull(conn, b[4:]); err != nil {
-			col.add(b[:4])
+			col.add(ci, b[:4])
 			return
 		}
-		col.add(b)
+		col.add(ci, b)
 	}
 }
 
-func c10ReadUDP(conn net.Conn, col *c10Collector, done chan struct{}) {
+func c10ReadUDP(ci int, conn net.Conn, col *c10Collector, done chan struct{}) {
 	defer close(done)
 	buf := make([]byte, 65536)
 	for {
@@ -215,7 +217,7 @@ func c10ReadUDP(conn net.Conn, col *c10Collector, done chan struct{}) {
 		if err != nil {
 			return
 		}
-		col.add(buf[:n])
+		col.add(ci, buf[:n])
 	}
 }
 
@@ -237,9 +239,9 @@ func c10RunOnce(s *c10Scn, addr string, imp *c10Imp) error {
 		conns[i] = c
 		dones[i] = make(chan struct{})
 		if s.UDP {
-			go c10ReadUDP(c, col, dones[i])
+			go c10ReadUDP(i, c, col, dones[i])
 		} else {
-			go c10ReadTCP(c, col, dones[i])
+			go c10ReadTCP(i, c, col, dones[i])
 		}
 	}
 	imp.mu.Lock()
@@ -344,6 +346,7 @@ func c10RunOnce(s *c10Scn, addr string, imp *c10Imp) error {
 	}
 	col.mu.Lock()
 	s.Obs = toB(col.obs)
+	s.ObsConn = append([]int(nil), col.conn...)
 	col.mu.Unlock()
 	imp.mu.Lock()
 	for i := range s.Reqs {
